@@ -34,14 +34,19 @@ TraceInit == /\ tid \in 1..Len(Traces) /\ l = 1
              /\ st = "disabled" /\ queue = <<>> /\ pend = <<>> /\ emit = <<>> /\ tun = <<>>
              /\ opener = "none" /\ ops = 0
              /\ asked = {} /\ sentTo = {} /\ heard = {}
+             /\ cfgs = {flags} /\ seen = "prev"
 
 (* data: a = destination written into the DATA cell; res: rip = the address the harness' resolver answers;        *)
-(* out: a = source address of the datagram handed to the socket's protocol                                         *)
+(* out: a = source address of the datagram handed to the socket's protocol; flags: fl = the flag set written to    *)
+(* settings.peer_flags; signed: src = where a validly signed overlay message made by the previous hop node (kind:  *)
+(* introduction request, puncture, destroy of an unknown circuit) was delivered from                               *)
 Step(e) == CASE e.k = "data" -> DataFromTunnel(e.src, e.dk, e.a, Mk(e.p))
              [] e.k = "tr" -> TransportReady
              [] e.k = "res" -> ResolveDone(e.i, e.rip)
              [] e.k = "out" -> OutsideDatagram(e.fam, e.a, Mk(e.p))
              [] e.k = "close" -> Close
+             [] e.k = "flags" -> SetFlags(Rng(e.fl))
+             [] e.k = "signed" -> SignedMessage(e.src)
 
 TraceNext == /\ l <= Len(Ev)
              /\ LET e == Ev[l] IN
@@ -63,7 +68,11 @@ TraceAccepted == l <= Len(Ev) => ENABLED TraceNext
 (* from, nor on what the socket did with that address earlier: the traces contain datagrams from addresses the    *)
 (* socket sent allowed packets to / was asked to send to / accepted datagrams from, and data towards them.        *)
 
-ObsNext == /\ l <= Len(Ev) /\ l' = l + 1 /\ UNCHANGED <<vars, tid>>
+(* `flags` follows the logged reconfigurations: every observation is judged by the flags configured when it was made *)
+ObsNext == /\ l <= Len(Ev) /\ l' = l + 1
+           /\ flags' = IF Ev[l].k = "flags" THEN Rng(Ev[l].fl) ELSE flags
+           /\ cfgs' = cfgs \cup {flags'}
+           /\ UNCHANGED <<prefix, st, queue, pend, emit, tun, opener, ops, asked, sentTo, heard, seen, tid>>
 ObsSpec == TraceInit /\ [][ObsNext]_tvars
 
 Opened(s) == s \in {"enabling0", "enabling4", "ready"}
@@ -75,7 +84,8 @@ ObsOK == l <= Len(Ev) =>
              /\ \A i \in 1..Len(e.emit) : Allowed(flags, Mk(e.emit[i].p), prefix) /\ e.emit[i].dk # "null"
              \* whatever comes back from outside into the tunnel passes the same policy
              /\ \A i \in 1..Len(e.tun) : Allowed(flags, Mk(e.tun[i].p), prefix)
-             \* the socket is opened only by tunnel data from the previous hop's IP address ...
+             \* the socket is opened only by tunnel data from the previous hop's IP address (src is where the driver
+             \* delivered the cell from, relative to the node the circuit was built through) ...
              /\ (~Opened(StBefore) /\ Opened(e.st)) => (e.k = "data" /\ e.src # "other" /\ StBefore = "disabled")
              \* ... and nothing leaves through a socket that was never opened
              /\ (e.emit # <<>>) => Opened(e.st)
